@@ -134,6 +134,14 @@ def gen_cases(ck, rng, quick):
     # scaled / normalised
     for r in range(-32768, 32768):
         cases.append(dict(kind="raw", r=r, lines=["call NormalizedValue_fromScaled - %d" % r]))
+    # out-of-range C ints: scaledToNormalized clamps them (theorem C19_fromScaled_saturates); boundaries, powers of two, INT_MIN/MAX, random
+    sat = [32768, 32769, 65535, 65536, 65537, 98303, 98304, 100000, 2 ** 24, 2 ** 24 + 1, 2 ** 31 - 1, -32769, -32770, -65535, -65536, -65537,
+           -98304, -100000, -2 ** 24, -2 ** 31 + 1, -2 ** 31]
+    sat += [rng.range(32768, 2 ** 31 - 1) for _ in range(200 if quick else 5000)] + [rng.range(-2 ** 31, -32769) for _ in range(200 if quick else 5000)]
+    sat += [32768 + i for i in range(2, 300)] + [-32769 - i for i in range(2, 300)]
+    for r in sat:
+        cases.append(dict(kind="raw", r=r, want=max(-32768, min(32767, r)), lines=["call NormalizedValue_fromScaled - %d" % r]))
+    ck.count("raw:out-of-range ints", len(sat))
     for r in list(range(-32768, 32768, 257)) + [-32768, -1, 0, 1, 32767]:
         b = rng.bytes(2).hex()
         cases.append(dict(kind="scaled", r=r, lines=["call setScaledValue %s %d" % (b, r)]))
@@ -185,7 +193,7 @@ def run(ck):
         "Flocq binary32 (round-to-nearest-even) stands in for the compiler's float arithmetic (validated on all 65536 raws and a float sample each run; all 2^32 patterns natively in thorough)",
         "C int arithmetic is modelled as unbounded Z (signed overflow = UB is outside the model; UBSan build watches it at run time)",
         "extraction: ExtrOcamlBasic only; OCaml runner driver/d_time.ml used for the correspondence only",
-        "axioms: Print Assumptions per theorem (Closed under the global context except C19_raw_roundtrip / C19_saturate_partial which inherit Flocq's use of Classical_Prop.classic, FunctionalExtensionality.functional_extensionality_dep, ClassicalDedekindReals.sig_forall_dec, sig_not_dec)",
+        "axioms: Print Assumptions per theorem (Closed under the global context except C19_raw_roundtrip / C19_saturate_partial / C19_fromScaled_saturates / C19_fromScaled_ends which inherit Flocq's use of Classical_Prop.classic, FunctionalExtensionality.functional_extensionality_dep, ClassicalDedekindReals.sig_forall_dec, sig_not_dec)",
     ]
     ck.rule = ("frame cases: every setter x every pattern of the octet it touches (exhaustive 256) x in-range arguments, word fields on boundary+random words; "
                "timestamps: boundaries, leap days, day starts/ends, random; civil: both ends of all 36525 days; raws: all 65536; floats: boundaries + random (NaN excluded). "
@@ -350,7 +358,7 @@ def run(ck):
             ndis += 1
             ck.fail("correspondence", "diff:" + l.split()[1], "model and implementation differ on `%s`: C=%s model=%s" % (l, a, b), {"script": [l]})
         v = int(a.split()[1])
-        want = c["t"] if c["kind"] == "time" else c["r"]
+        want = c["t"] if c["kind"] == "time" else c.get("want", c["r"])
         if v != want:
             nbad += 1
             sig = "oracle:roundtrip:" + c["kind"]
